@@ -29,27 +29,347 @@ package apd
 //@ global decimalInfinity: decimalInfinity.Form == Infinite && !decimalInfinity.Negative && decimalInfinity.Exponent == 0 && val(decimalInfinity.Coeff) == 0
 //@ global pow10LookupTable[i]: 0 <= i && i <= 128 ==> val(pow10LookupTable[i]) == pow10(i)
 
-// ---------------------------------------------------------------- BigInt as seen from layer 2
+// ---------------------------------------------------------------- bigint.go (layer 1: the representation is visible; C16)
+// val(z) expands to: _inner == nil ? w0 + 2^64*w1 : _inner == negSentinel ? -(w0 + 2^64*w1) : value of the math/big object
+// rep(z): words in range; an inline negative is non-zero ("zero is never negative"); the handle is valid.
+// Layer-2 callers use the same contracts with val(z) abstract and rep(z) == true.
+
+//@ define heapform(z: *BigInt): bool = z._inner != nil && z._inner != negSentinel
+//@ define sep(z: *BigInt, x: *BigInt): bool = z == x || !(heapform(z) && heapform(x) && z._inner == x._inner)
+//@ define u64(v: int): bool = 0 <= v && v < 18446744073709551616
+
+//@ axiom bitlen_hi(w0: int, w1: int): 0 <= w0 && w0 < 18446744073709551616 && w1 > 0 ==> bitlen(w0 + 18446744073709551616 * w1) == 64 + bitlen(w1)
+//@ lemma {C16} tdiv_mag(x: int, y: int): y != 0 ==> abs(tdiv(x, y)) == div(abs(x), abs(y)) && abs(tmod(x, y)) == mod(abs(x), abs(y)) && (tdiv(x, y) < 0 ==> (x < 0) != (y < 0)) && (tdiv(x, y) > 0 ==> (x < 0) == (y < 0)) && (tmod(x, y) < 0 ==> x < 0) && (tmod(x, y) > 0 ==> x > 0)
+//@   using divmod_unique(abs(x), abs(y), abs(tdiv(x, y)), abs(tmod(x, y)))
+
+//@ func (*BigInt).isInline
+//@   layer bigint
+//@   props C16
+//@   pure
+//@   ensures ret <==> (z._inner == nil || z._inner == negSentinel)
+
+//@ func (*BigInt).innerAsUint64
+//@   layer bigint
+//@   props C16
+//@   requires rep(z)
+//@   pure
+//@   ensures ret2 <==> (!heapform(z) && z._inline[1] == 0)
+//@   ensures ret2 ==> (u64(ret0) && ret0 == z._inline[0] && ret1 == (z._inner == negSentinel) && val(z) == signed(ret1, ret0))
+//@   ensures !ret2 ==> (ret0 == 0 && !ret1)
+
+//@ func (*BigInt).updateInnerFromUint64
+//@   layer bigint
+//@   props C16
+//@   requires writable(z) && (neg ==> val != 0)
+//@   assigns z
+//@   ensures val(z) == signed(neg, val) && rep(z) && !heapform(z)
+
+//@ func addInline
+//@   layer bigint
+//@   props C16
+//@   requires u64(xVal) && u64(yVal) && (xNeg ==> xVal != 0)
+//@   pure
+//@   ensures ret2 <==> !(xNeg == yNeg && xVal + yVal >= 18446744073709551616)
+//@   ensures ret2 ==> (signed(ret1, ret0) == signed(xNeg, xVal) + signed(yNeg, yVal) && (ret0 == 0 ==> !ret1))
+
+//@ func mulInline
+//@   layer bigint
+//@   props C16
+//@   requires u64(xVal) && u64(yVal) && (xNeg ==> xVal != 0) && (yNeg ==> yVal != 0)
+//@   pure
+//@   ensures ret2 <==> xVal * yVal < 18446744073709551616
+//@   ensures ret2 ==> (ret0 == xVal * yVal && (ret0 != 0 ==> ret1 == (xNeg != yNeg)) && (ret0 == 0 ==> !ret1))
+
+//@ func quoInline
+//@   layer bigint
+//@   props C16
+//@   requires u64(xVal) && u64(yVal) && (xNeg ==> xVal != 0) && (yNeg ==> yVal != 0)
+//@   pure
+//@   ensures ret2 <==> yVal != 0
+//@   ensures ret2 ==> (ret0 == div(xVal, yVal) && (ret0 != 0 ==> ret1 == (xNeg != yNeg)) && (ret0 == 0 ==> !ret1))
+
+//@ func remInline
+//@   layer bigint
+//@   props C16
+//@   requires u64(xVal) && u64(yVal) && (xNeg ==> xVal != 0) && (yNeg ==> yVal != 0)
+//@   pure
+//@   ensures ret2 <==> yVal != 0
+//@   ensures ret2 ==> (ret0 == mod(xVal, yVal) && (ret0 != 0 ==> ret1 == xNeg) && (ret0 == 0 ==> !ret1))
+
+// the unsafe bridge and math/big: assumed contracts (trusted base, DESIGN 8.2/8.3)
+
+//@ func (*BigInt).inner
+//@   trusted unsafe bridge: points tmp at the inline words (noescape/unsafe casts); exercised by the bounded differential check
+//@   layer bigint
+//@   requires rep(z) && writable(tmp)
+//@   assigns *tmp
+//@   ensures ret != nil && val(ret) == val(z) && (heapform(z) ==> ret == z._inner) && (!heapform(z) ==> ret == tmp)
+
+//@ func (*BigInt).updateInner
+//@   trusted unsafe bridge: adopts src's words or switches to a fresh heap big.Int; exercised by the bounded differential check
+//@   layer bigint
+//@   requires writable(z) && src != nil
+//@   assigns z
+//@   allocates
+//@   ensures val(z) == old(val(src)) && rep(z) && (heapform(z) ==> (z._inner == old(z._inner) || isfresh(z._inner)))
+
+//@ func math/big.(*Int).Abs
+//@   trusted math/big documented semantics; operands may alias; only the receiver is written
+//@   assigns *z
+//@   ensures val(z) == abs(old(val(x))) && ret == z
+//@ func math/big.(*Int).Neg
+//@   trusted math/big documented semantics
+//@   assigns *z
+//@   ensures val(z) == -old(val(x)) && ret == z
+//@ func math/big.(*Int).Set
+//@   trusted math/big documented semantics
+//@   assigns *z
+//@   ensures val(z) == old(val(x)) && ret == z
+//@ func math/big.(*Int).Add
+//@   trusted math/big documented semantics
+//@   assigns *z
+//@   ensures val(z) == old(val(x)) + old(val(y)) && ret == z
+//@ func math/big.(*Int).Sub
+//@   trusted math/big documented semantics
+//@   assigns *z
+//@   ensures val(z) == old(val(x)) - old(val(y)) && ret == z
+//@ func math/big.(*Int).Mul
+//@   trusted math/big documented semantics
+//@   assigns *z
+//@   ensures val(z) == old(val(x)) * old(val(y)) && ret == z
+//@ func math/big.(*Int).Quo
+//@   trusted math/big documented semantics (truncated division; panics for y == 0)
+//@   requires val(y) != 0
+//@   assigns *z
+//@   ensures val(z) == tdiv(old(val(x)), old(val(y))) && ret == z
+//@ func math/big.(*Int).Rem
+//@   trusted math/big documented semantics (truncated remainder; panics for y == 0)
+//@   requires val(y) != 0
+//@   assigns *z
+//@   ensures val(z) == tmod(old(val(x)), old(val(y))) && ret == z
+//@ func math/big.(*Int).QuoRem
+//@   trusted math/big documented semantics
+//@   requires val(y) != 0 && z != r
+//@   assigns *z, *r
+//@   ensures val(z) == tdiv(old(val(x)), old(val(y))) && val(r) == tmod(old(val(x)), old(val(y))) && ret0 == z && ret1 == r
+//@ func math/big.(*Int).Cmp
+//@   trusted math/big documented semantics
+//@   pure
+//@   ensures ret == sgn(val(x) - val(y))
+//@ func math/big.(*Int).CmpAbs
+//@   trusted math/big documented semantics
+//@   pure
+//@   ensures ret == sgn(abs(val(x)) - abs(val(y)))
+//@ func math/big.(*Int).Sign
+//@   trusted math/big documented semantics
+//@   pure
+//@   ensures ret == sgn(val(x))
+//@ func math/big.(*Int).Bit
+//@   trusted math/big documented semantics (bit 0 is the parity, also in two's complement)
+//@   pure
+//@   ensures (ret == 0 || ret == 1) && (i == 0 ==> ret == mod(val(x), 2))
+//@ func math/big.(*Int).BitLen
+//@   trusted math/big documented semantics
+//@   pure
+//@   ensures ret == bitlen(abs(val(x))) && ret >= 0 && ret < 2147483648
+//@ func math/big.(*Int).IsUint64
+//@   trusted math/big documented semantics
+//@   pure
+//@   ensures ret <==> u64(val(x))
+//@ func math/big.(*Int).IsInt64
+//@   trusted math/big documented semantics
+//@   pure
+//@   ensures ret <==> (-9223372036854775808 <= val(x) && val(x) <= 9223372036854775807)
+//@ func math/big.(*Int).Uint64
+//@   trusted math/big documented semantics (low 64 bits of |x|)
+//@   pure
+//@   ensures ret == mod(abs(val(x)), 18446744073709551616)
+//@ func math/big.(*Int).Int64
+//@   trusted math/big documented semantics (low 64 bits, sign applied, wrapped)
+//@   pure
+//@   ensures ret == wrap64(signed(val(x) < 0, mod(abs(val(x)), 18446744073709551616)))
+//@ func math/big.(*Int).Rsh
+//@   trusted math/big documented semantics
+//@   assigns *z
+//@   ensures (old(val(x)) >= 0 ==> val(z) == div(old(val(x)), pow2(n))) && ret == z
+
+// the wrappers: fast path proved from the representation, slow path against the assumed bridge contracts
 
 //@ func (*BigInt).Set
-//@   trusted layer-1 contract (proved in layer 1)
+//@   layer bigint
+//@   props C16 C05 C06
+//@   requires writable(z) && rep(x) && rep(z) && sep(z, x)
 //@   assigns z
-//@   ensures val(z) == old(val(x)) && result == z
+//@   allocates
+//@   ensures val(z) == old(val(x)) && ret == z && rep(z)
 
 //@ func (*BigInt).SetInt64
-//@   trusted layer-1 contract
+//@   layer bigint
+//@   props C16 C17
+//@   requires writable(z)
 //@   assigns z
-//@   ensures val(z) == x && result == z
+//@   ensures val(z) == x && ret == z && rep(z)
+
+//@ func (*BigInt).SetUint64
+//@   layer bigint
+//@   props C16 C17
+//@   requires writable(z)
+//@   assigns z
+//@   ensures val(z) == x && ret == z && rep(z)
 
 //@ func (*BigInt).Abs
-//@   trusted layer-1 contract
+//@   layer bigint
+//@   props C16 C05 C06
+//@   requires writable(z) && rep(x) && rep(z) && sep(z, x)
 //@   assigns z
-//@   ensures val(z) == abs(old(val(x))) && result == z
+//@   allocates
+//@   ensures val(z) == abs(old(val(x))) && ret == z && rep(z)
+
+//@ func (*BigInt).Neg
+//@   layer bigint
+//@   props C16 C05 C06
+//@   requires writable(z) && rep(x) && rep(z) && sep(z, x)
+//@   assigns z
+//@   allocates
+//@   ensures val(z) == -old(val(x)) && ret == z && rep(z)
 
 //@ func (*BigInt).Sign
-//@   trusted layer-1 contract
+//@   layer bigint
+//@   props C16
+//@   requires rep(z)
 //@   pure
-//@   ensures result == sgn(val(z))
+//@   ensures ret == sgn(val(z))
+
+//@ func (*BigInt).Add
+//@   layer bigint
+//@   props C16 C05 C06
+//@   requires writable(z) && rep(x) && rep(y) && rep(z) && sep(z, x) && sep(z, y)
+//@   assigns z
+//@   allocates
+//@   ensures val(z) == old(val(x)) + old(val(y)) && ret == z && rep(z)
+
+//@ func (*BigInt).Sub
+//@   layer bigint
+//@   props C16 C05 C06
+//@   requires writable(z) && rep(x) && rep(y) && rep(z) && sep(z, x) && sep(z, y)
+//@   assigns z
+//@   allocates
+//@   ensures val(z) == old(val(x)) - old(val(y)) && ret == z && rep(z)
+
+//@ func (*BigInt).Mul
+//@   layer bigint
+//@   props C16 C05 C06
+//@   requires writable(z) && rep(x) && rep(y) && rep(z) && sep(z, x) && sep(z, y)
+//@   assigns z
+//@   allocates
+//@   ensures val(z) == old(val(x)) * old(val(y)) && ret == z && rep(z)
+
+//@ func (*BigInt).Quo
+//@   layer bigint
+//@   props C16 C05 C06
+//@   requires val(y) != 0 && writable(z) && rep(x) && rep(y) && rep(z) && sep(z, x) && sep(z, y)
+//@   assigns z
+//@   allocates
+//@   hint tdiv_mag(val(x), val(y))
+//@   ensures val(z) == tdiv(old(val(x)), old(val(y))) && ret == z && rep(z)
+
+//@ func (*BigInt).Rem
+//@   layer bigint
+//@   props C16 C05 C06
+//@   requires val(y) != 0 && writable(z) && rep(x) && rep(y) && rep(z) && sep(z, x) && sep(z, y)
+//@   assigns z
+//@   allocates
+//@   hint tdiv_mag(val(x), val(y))
+//@   ensures val(z) == tmod(old(val(x)), old(val(y))) && ret == z && rep(z)
+
+//@ func (*BigInt).QuoRem
+//@   layer bigint
+//@   props C16 C05 C06
+//@   requires val(y) != 0 && z != r && writable(z) && writable(r) && rep(x) && rep(y) && rep(z) && rep(r) && sep(z, x) && sep(z, y) && sep(r, x) && sep(r, y) && sep(z, r)
+//@   assigns z, r
+//@   allocates
+//@   hint tdiv_mag(val(x), val(y))
+//@   ensures val(z) == tdiv(old(val(x)), old(val(y))) && val(r) == tmod(old(val(x)), old(val(y))) && ret0 == z && ret1 == r && rep(z) && rep(r)
+
+//@ func (*BigInt).Cmp
+//@   layer bigint
+//@   props C16
+//@   requires rep(z) && rep(y)
+//@   pure
+//@   ensures ret == sgn(val(z) - val(y))
+
+//@ func (*BigInt).CmpAbs
+//@   layer bigint
+//@   props C16
+//@   requires rep(z) && rep(y)
+//@   pure
+//@   ensures ret == sgn(abs(val(z)) - abs(val(y)))
+
+//@ func (*BigInt).Bit
+//@   layer bigint
+//@   props C16
+//@   requires rep(z)
+//@   pure
+//@   ensures (ret == 0 || ret == 1) && (i == 0 ==> ret == mod(val(z), 2))
+
+//@ func (*BigInt).BitLen
+//@   layer bigint
+//@   props C16 C19
+//@   requires rep(z)
+//@   pure
+//@   hint bitlen_hi(z._inline[0], z._inline[1])
+//@   loop 1 invariant -1 <= i && i <= 1 && (i == 0 ==> z._inline[1] == 0) && (i == -1 ==> z._inline[1] == 0 && z._inline[0] == 0)
+//@   loop 1 decreases i + 1
+//@   ensures ret == bitlen(abs(val(z))) && ret >= 0 && ret < 2147483648
+
+//@ func (*BigInt).IsUint64
+//@   layer bigint
+//@   props C16
+//@   requires rep(z)
+//@   pure
+//@   ensures ret <==> u64(val(z))
+
+//@ func (*BigInt).IsInt64
+//@   layer bigint
+//@   props C16
+//@   requires rep(z)
+//@   pure
+//@   ensures ret <==> (-9223372036854775808 <= val(z) && val(z) <= 9223372036854775807)
+
+//@ func (*BigInt).Uint64
+//@   layer bigint
+//@   props C16
+//@   requires rep(z)
+//@   pure
+//@   ensures ret == mod(abs(val(z)), 18446744073709551616)
+
+//@ func (*BigInt).Int64
+//@   layer bigint
+//@   props C16 C17
+//@   requires rep(z)
+//@   pure
+//@   ensures ret == wrap64(signed(val(z) < 0, mod(abs(val(z)), 18446744073709551616)))
+
+//@ func (*BigInt).Rsh
+//@   layer bigint
+//@   props C16
+//@   requires writable(z) && rep(x) && rep(z) && sep(z, x)
+//@   assigns z
+//@   allocates
+//@   ensures (old(val(x)) >= 0 ==> val(z) == div(old(val(x)), pow2(n))) && ret == z && rep(z)
+
+//@ func (*BigInt).Exp
+//@   trusted assumed math/big contract, base-10 instance only
+//@   nilable m
+//@   assigns z
+//@   ensures (m == nil && old(val(x)) == 10 && old(val(y)) >= 0) ==> (val(z) == pow10(old(val(y))) && ret == z)
+
+//@ func NewBigInt
+//@   layer bigint
+//@   props C16
+//@   fresh
+//@   assigns nothing
+//@   ensures ret != nil && writable(ret) && val(ret) == x && rep(ret)
 
 // ---------------------------------------------------------------- decimal.go
 
@@ -88,85 +408,6 @@ package apd
 //@   assigns d
 //@   ensures d.Form == old(x.Form) && d.Exponent == old(x.Exponent) && val(d.Coeff) == old(val(x.Coeff)) && result == d
 //@   ensures d.Negative == ite(old(x.Form) == Finite && old(val(x.Coeff)) == 0, false, !old(x.Negative))
-
-//@ func (*BigInt).SetUint64
-//@   trusted layer-1 contract
-//@   assigns z
-//@   ensures val(z) == x && ret == z
-
-//@ func (*BigInt).Neg
-//@   trusted layer-1 contract
-//@   assigns z
-//@   ensures val(z) == -old(val(x)) && ret == z
-
-//@ func (*BigInt).Add
-//@   trusted layer-1 contract
-//@   assigns z
-//@   ensures val(z) == old(val(x)) + old(val(y)) && ret == z
-
-//@ func (*BigInt).Sub
-//@   trusted layer-1 contract
-//@   assigns z
-//@   ensures val(z) == old(val(x)) - old(val(y)) && ret == z
-
-//@ func (*BigInt).Mul
-//@   trusted layer-1 contract
-//@   assigns z
-//@   ensures val(z) == old(val(x)) * old(val(y)) && ret == z
-
-//@ func (*BigInt).Quo
-//@   trusted layer-1 contract
-//@   requires val(y) != 0
-//@   assigns z
-//@   ensures val(z) == tdiv(old(val(x)), old(val(y))) && ret == z
-
-//@ func (*BigInt).Rem
-//@   trusted layer-1 contract
-//@   requires val(y) != 0
-//@   assigns z
-//@   ensures val(z) == tmod(old(val(x)), old(val(y))) && ret == z
-
-//@ func (*BigInt).QuoRem
-//@   trusted layer-1 contract
-//@   requires val(y) != 0 && z != r
-//@   assigns z, r
-//@   ensures val(z) == tdiv(old(val(x)), old(val(y))) && val(r) == tmod(old(val(x)), old(val(y))) && ret0 == z && ret1 == r
-
-//@ func (*BigInt).Cmp
-//@   trusted layer-1 contract
-//@   pure
-//@   ensures ret == sgn(val(z) - val(y))
-
-//@ func (*BigInt).Bit
-//@   trusted layer-1 contract
-//@   pure
-//@   ensures (ret == 0 || ret == 1) && (i == 0 ==> ret == mod(val(z), 2))
-
-//@ func (*BigInt).BitLen
-//@   trusted layer-1 contract
-//@   pure
-//@   ensures ret == bitlen(abs(val(z))) && ret >= 0 && ret < 2147483648
-
-//@ func (*BigInt).IsUint64
-//@   trusted layer-1 contract
-//@   pure
-//@   ensures ret <==> (0 <= val(z) && val(z) < 18446744073709551616)
-
-//@ func (*BigInt).Uint64
-//@   trusted layer-1 contract
-//@   pure
-//@   ensures ret == mod(abs(val(z)), 18446744073709551616)
-
-//@ func (*BigInt).Rsh
-//@   trusted layer-1 contract
-//@   assigns z
-//@   ensures (old(val(x)) >= 0 ==> val(z) == div(old(val(x)), pow2(n))) && ret == z
-
-//@ func (*BigInt).Exp
-//@   trusted assumed math/big contract, base-10 instance only
-//@   nilable m
-//@   assigns z
-//@   ensures (m == nil && old(val(x)) == 10 && old(val(y)) >= 0) ==> (val(z) == pow10(old(val(y))) && ret == z)
 
 // ---------------------------------------------------------------- table.go
 
